@@ -304,6 +304,12 @@ func inventoryNames(obls []*Obligation) []string {
 		case "ensures", "invariant-init", "invariant-preserve", "lemma", "requires@call", "census", "guard", "roundtrip", "decreases":
 			set[ob.Name] = true
 		case "engine", "unsupported":
+		case "frame":
+			base := ob.Name
+			if i := strings.Index(base, "#frame"); i >= 0 {
+				base = base[:i] + "#frame"
+			}
+			set[base] = true
 		default:
 			// generated from code: pin only the function#kind
 			base := ob.Name
